@@ -328,6 +328,38 @@ func genHandlers(w *strings.Builder, ssaJSON map[string]ssaSets) {
 			locked = "true"
 		}
 	}
+	// what a request does outside the handler lock: statements of the two entry handlers other than logging and the
+	// delegation to the generic handler, and statements of the generic handler in front of the Lock() call
+	var unlocked []string
+	for _, key := range []string{"converter.ConverterHandlerTabular", "converter.ConverterHandlerVisual"} {
+		fd := funcs[key]
+		if fd == nil {
+			unsup("%s not found", key)
+			continue
+		}
+		for _, st := range fd.Body.List {
+			if es, ok := st.(*ast.ExprStmt); ok {
+				if c, ok := es.X.(*ast.CallExpr); ok && (isNoise(c) || src(c.Fun) == "converterHandler") {
+					continue
+				}
+			}
+			unlocked = append(unlocked, key+": "+firstLine(src(st)))
+		}
+	}
+	if fd := funcs["converter.converterHandler"]; fd != nil && locked == "true" {
+		for _, st := range fd.Body.List {
+			s := strings.Join(strings.Fields(src(st)), "")
+			if strings.HasSuffix(s, ".Lock()") {
+				break
+			}
+			if es, ok := st.(*ast.ExprStmt); ok {
+				if c, ok := es.X.(*ast.CallExpr); ok && isNoise(c) {
+					continue
+				}
+			}
+			unlocked = append(unlocked, "converter.converterHandler: "+firstLine(src(st)))
+		}
+	}
 	strs := func(l []string) string {
 		var o []string
 		for _, x := range l {
@@ -338,6 +370,7 @@ func genHandlers(w *strings.Builder, ssaJSON map[string]ssaSets) {
 	fmt.Fprintf(w, "Definition handle_tab : list ginstr := %s.\n\n", coqList(prog("converter.handleTabularOutput", "ConvertIGScriptToTabularOutput")))
 	fmt.Fprintf(w, "Definition handle_vis : list ginstr := %s.\n\n", coqList(prog("converter.handleVisualOutput", "ConvertIGScriptToVisualTree")))
 	fmt.Fprintf(w, "Definition handler_locked : bool := %s.\n\n", locked)
+	fmt.Fprintf(w, "Definition handler_unlocked_statements : list str := %s.\n\n", strs(unlocked))
 	fmt.Fprintf(w, "Definition reads_tab : list str := %s.\nDefinition reads_vis : list str := %s.\n", strs(ssaJSON["handle_tab"].Reads), strs(ssaJSON["handle_vis"].Reads))
 	fmt.Fprintf(w, "Definition runtime_writes : list str := %s.\n", strs(ssaJSON["handler"].Writes))
 	fmt.Fprintf(w, "Definition conversion_writes_tab : list str := %s.\nDefinition conversion_writes_vis : list str := %s.\n\n", strs(ssaJSON["endpoint_tab"].Writes), strs(ssaJSON["endpoint_vis"].Writes))
